@@ -29,6 +29,16 @@ var Root = func() string {
 	return "/verif"
 }()
 
+// OutRoot is where evidence and replays are written: Root, unless a development run against a
+// scratch tree asks for another place through VERIF_OUT (so that such a run never rewrites the
+// committed evidence of the real tree).
+var OutRoot = func() string {
+	if v := os.Getenv("VERIF_OUT"); v != "" {
+		return v
+	}
+	return Root
+}()
+
 // Violation is one (first per finding class) violation of a property.
 type Violation struct {
 	Key    string      `json:"key"`
@@ -103,6 +113,7 @@ type Run struct {
 	extra       map[string]interface{}
 	incomplete  bool
 	unstableN   int
+	peakHeap    uint64 // sampled by the watchdog
 	harnessErrs []string
 	guards      []string
 
@@ -549,6 +560,11 @@ func (r *Run) watchdog() {
 		}
 	}
 	var ms runtime.MemStats
+	// the quick tier's own heap stays far below 1 GiB; the deeper searches of the thorough tier keep more
+	heapLimit := uint64(8 << 30)
+	if r.Tier == "thorough" {
+		heapLimit = 24 << 30
+	}
 	for {
 		time.Sleep(500 * time.Millisecond)
 		now := atomic.AddInt64(&ticks, 1)
@@ -563,13 +579,16 @@ func (r *Run) watchdog() {
 			}
 		}
 		runtime.ReadMemStats(&ms)
-		if ms.HeapAlloc > 24<<30 {
+		if ms.HeapAlloc > atomic.LoadUint64(&r.peakHeap) {
+			atomic.StoreUint64(&r.peakHeap, ms.HeapAlloc)
+		}
+		if ms.HeapAlloc > heapLimit {
 			for i := range r.inflight {
 				in := &r.inflight[i]
 				if atomic.LoadInt64(&in.since) != 0 {
 					part, _ := in.part.Load().(string)
 					idx := atomic.LoadUint64(&in.index)
-					r.fail("runaway-heap/"+part, "heap exceeded 24 GiB while this case was in flight (one of the in-flight cases allocates without bound)", part, idx, nil, nil)
+					r.fail("runaway-heap/"+part, fmt.Sprintf("heap exceeded %d GiB while this case was in flight (one of the in-flight cases allocates without bound)", heapLimit>>30), part, idx, nil, nil)
 				}
 			}
 			os.Exit(r.Finish())
@@ -638,13 +657,13 @@ func (r *Run) Finish() int {
 		return 0
 	}
 
-	os.MkdirAll(filepath.Join(Root, "replays"), 0o755)
-	os.MkdirAll(filepath.Join(Root, "evidence"), 0o755)
+	os.MkdirAll(filepath.Join(OutRoot, "replays"), 0o755)
+	os.MkdirAll(filepath.Join(OutRoot, "evidence"), 0o755)
 
 	for _, k := range keys {
 		v := r.viol[k]
 		name := fmt.Sprintf("%s-%016x.json", r.Prop, fnv64(k))
-		path := filepath.Join(Root, "replays", name)
+		path := filepath.Join(OutRoot, "replays", name)
 		v.Replay = path
 		rec := map[string]interface{}{
 			"property": r.Prop, "tier": r.Tier, "key": v.Key, "what": v.What,
@@ -696,6 +715,7 @@ func (r *Run) Finish() int {
 	for k, v := range r.extra {
 		cov[k] = v
 	}
+	cov["peak_heap_mib_sampled"] = atomic.LoadUint64(&r.peakHeap) >> 20
 	if len(r.samples) == 0 {
 		cov["samples"] = []interface{}{"(no sample recorded)"}
 	}
@@ -723,7 +743,7 @@ func (r *Run) Finish() int {
 		fmt.Printf("harness error: evidence does not marshal: %v\n", err)
 		return 2
 	}
-	if err := ioutil.WriteFile(filepath.Join(Root, "evidence", r.Prop+".json"), b, 0o644); err != nil {
+	if err := ioutil.WriteFile(filepath.Join(OutRoot, "evidence", r.Prop+".json"), b, 0o644); err != nil {
 		fmt.Printf("harness error: cannot write evidence: %v\n", err)
 		return 2
 	}
